@@ -33,6 +33,14 @@ CLAIMED = {
    "invariant monitor inside the simulator: after every event, on every live node (primary, followers, restarted incarnations), every NumberCell, formula value and spill value is scanned for NaN / infinity; the workload is biased to overflow (1E308, 1E-320, ^ * /, SUM, array literals and range arithmetic in scalar, CSE and dynamic form) and includes typed numbers like 1e999. What is NOT decided here: the statement's sweep of every built-in function x extreme arguments (an enumeration of a pure function table, which needs the function-enum hook and is not simulation) and numbers read from xlsx files (exercised by the C24/C25 corruption stage).",
    "only the formula grammar of DESIGN 4.2 (operators and a 20-function whitelist) is exercised; ~475 built-in functions are never called by this check",
    "deterministic simulation: invariant monitor over seeded histories biased to overflow", "6 C08"),
+ "C24": ("exploration",
+   "the xlsx disk is a simulated device: at ~12% of the steps of histories of 3-25 operations (all families, half of the runs with texts, string literals, sheet names, link targets and tooltips drawn from a pool of control characters, XML specials, _xHHHH_ look-alikes, CR/LF forms, significant white space, non-characters, astral and combining code points) the current workbook is exported through SimDisk and what the disk holds is imported. 70% of the exports are fault-free: the imported workbook's observable snapshot, restricted to what the statement lists (sheets, cells, styles, row/column descriptors, panes, grid lines, names, links, conditional formats with priorities as an order), must equal the exported one's. 30% run under a drawn write-fault plan (short writes, Interrupted, hard error at byte k, failing seek, failing flush): save_xlsx_to_writer must return Err, or Ok with a disk holding entry for entry the bytes of the fault-free export (zip entry timestamps, the one field the writer takes from the real clock, excepted). Sampling, not proof.",
+   "bounds of DESIGN 2.2; workbook name, theme, named-style catalogue, locale and timezone are not in the statement and not compared; the export of an unevaluated (paused) workbook is skipped",
+   "deterministic simulation with fault injection: export/import at arbitrary points of seeded histories through a fault-injecting disk; snapshot equality and byte identity against the fault-free export", "6 C24"),
+ "C25": ("fault_enumeration",
+   "storage-fault injection on valid packages: the simulator's own export of a history-reached workbook or one of ~240 fixtures of xlsx/tests is damaged by one drawn fault (truncation, zero-filled block, bit flips, dropped / duplicated / emptied / swapped zip entry, truncated XML part, dropped element, dropped or garbled attribute, forged text payload, deep nesting, garbage) and, in 15% of the cases, read through a device that injects short reads, Interrupted, EIO or early EOF (hook H2); import, Model::from_workbook and evaluate must return (Ok or Err). A panic is caught and reported with its location; a hang or abort is caught by the watchdog and decided by re-running the case alone with a 300 s budget. Fault kinds are enumerated, positions are sampled.",
+   "no memory limit is imposed on the workers: an allocation bomb would show as an abort; 'runs without bound' is decided against a 300 s budget for packages below 1 MB",
+   "deterministic simulation with fault injection: storage corruption and reader faults on valid packages, crash/hang oracle", "6 C25"),
  "C26": ("exploration",
    "storage seam of the internal format: Save, clean Restart (to_bytes -> from_bytes -> evaluate, new incarnation with another hash seed, undo history and queue lost) and dirty Restart (crash: load the last saved bytes) are events of simulated histories; at every Save the bitcode decoding of to_bytes() must equal the workbook field by field; after a clean restart the observable snapshot must equal the one before it, after a dirty restart the one taken at the Save. The run continues on the restarted node.",
    "comparisons are made on evaluated states only (a paused session has stale values by design)",
